@@ -5,6 +5,7 @@ package main
 // control-flow graph, loops cut at their headers).
 
 import (
+	"regexp"
 	"bytes"
 	"fmt"
 	"go/ast"
@@ -124,6 +125,10 @@ type FnTrans struct {
 	constDefs     map[string]bool   // defined names whose term is built from const-slice names
 	fnNames       map[string]bool   // names of the function's variables (stale-contract detection)
 	idxNeighbours map[string]bool   // second-rank instantiation candidates (skolem index + 1)
+	keyTerms      map[string]map[string]bool // key sort -> terms of that sort used as map keys / key skolems (instantiation candidates)
+	rangeIds      map[*ssa.Range]int         // map ranges -> id of their visited-set component V.r<id>
+	rangeMapRef   map[*ssa.Range]string      // map ranges -> reference term of the ranged map
+	curSt         *HeapState                 // state of the instruction being translated (moving allocation frontier)
 	staleClauses  []string          // clauses that mention a name the function no longer has
 	globalsUsed map[string]bool
 }
@@ -455,7 +460,34 @@ func (t *FnTrans) load(st *HeapState, l *Loc, guard string) Val {
 			t.assume(guard, t.typeAssume(v), "integer loaded from memory is in range")
 		}
 	}
+	t.entryRefFact(v.S, ty)
 	return v
+}
+
+var entryHeapSelect = regexp.MustCompile(`^\(select (\(select )?H\.[^ ()]*\.e1 `)
+
+// entryRefFact: allocation frontier.  A reference read directly from the heap
+// as it was at function entry (an epoch-1 component) denotes an object that
+// existed at entry: it lies at or below ALLOC0, while every object this
+// function allocates lies above it (allocRef).  Only entry-state reads get the
+// fact: after a call the heap may hold objects the callee allocated.
+func (t *FnTrans) entryRefFact(term string, ty types.Type) {
+	if ty == nil {
+		return
+	}
+	switch ty.Underlying().(type) {
+	case *types.Pointer, *types.Map, *types.Chan:
+	default:
+		return
+	}
+	if !entryHeapSelect.MatchString(term) {
+		return
+	}
+	if !t.declSet["ALLOC0"] {
+		t.declare("ALLOC0", "Int")
+		t.assume("true", sx(">", "ALLOC0", "0"), "allocation frontier is above nil")
+	}
+	t.assume("true", sx("<=", term, "ALLOC0"), "a reference stored in the entry heap is below the allocation frontier")
 }
 
 func (t *FnTrans) loadStruct(st *HeapState, ty types.Type, ref string, guard string) Val {
@@ -842,7 +874,20 @@ func (t *FnTrans) findLoops() {
 			})
 		}
 	}
+	// innermost loops first: an enclosing loop must take a statement that
+	// strictly contains the statements of the loops nested in it (its own
+	// header instructions may carry no position)
+	var ordered []*loopInfo
 	for _, li := range t.loops {
+		ordered = append(ordered, li)
+	}
+	sort.SliceStable(ordered, func(a, b int) bool {
+		if len(ordered[a].blocks) != len(ordered[b].blocks) {
+			return len(ordered[a].blocks) < len(ordered[b].blocks)
+		}
+		return ordered[a].header.Index < ordered[b].header.Index
+	})
+	for _, li := range ordered {
 		var best ast.Node
 		bestIdx := 0
 		for i, s := range stmts {
@@ -866,11 +911,31 @@ func (t *FnTrans) findLoops() {
 					}
 				}
 			}
-			if ok && any {
-				if best == nil || (s.End()-s.Pos()) < (best.End()-best.Pos()) {
-					best = s
-					bestIdx = i + 1
+			if !ok || !any {
+				continue
+			}
+			// must strictly contain the statement of every nested loop
+			for _, inner := range ordered {
+				if inner == li || inner.stmt == nil || len(inner.blocks) >= len(li.blocks) {
+					continue
 				}
+				nested := true
+				for b := range inner.blocks {
+					if !li.blocks[b] {
+						nested = false
+						break
+					}
+				}
+				if nested && (inner.stmt == s || s.Pos() > inner.stmt.Pos() || s.End() < inner.stmt.End()) {
+					ok = false
+				}
+			}
+			if !ok {
+				continue
+			}
+			if best == nil || (s.End()-s.Pos()) < (best.End()-best.Pos()) {
+				best = s
+				bestIdx = i + 1
 			}
 		}
 		li.ordinal = bestIdx
@@ -923,6 +988,9 @@ func (t *FnTrans) loopMods(li *loopInfo) {
 				if i := strings.Index(g.Target, "\""); i >= 0 {
 					if j := strings.LastIndex(g.Target, "\""); j > i {
 						li.mods["G."+g.Target[i+1:j]] = true
+						if strings.HasPrefix(strings.TrimSpace(g.Target), "ghostat(") {
+							li.mods["GA."+g.Target[i+1:j]] = true
+						}
 					}
 				}
 			}
@@ -935,8 +1003,31 @@ func (t *FnTrans) loopMods(li *loopInfo) {
 				for _, c := range t.addrComps(x.Addr) {
 					li.mods[c] = true
 				}
+			case *ssa.Alloc, *ssa.MakeMap, *ssa.MakeSlice:
+				li.mods["G.ALLOCF"] = true
 			case *ssa.MapUpdate:
 				li.mods["M:"+typeKey(x.Map.Type())] = true
+				// may taint any range over a map of this type
+				for _, b2 := range t.fn.Blocks {
+					for _, in2 := range b2.Instrs {
+						if rg, ok := in2.(*ssa.Range); ok && types.Identical(rg.X.Type().Underlying(), x.Map.Type().Underlying()) {
+							if comp, _, _, ok := t.rangeVisited(rg); ok {
+								li.mods[strings.Replace(comp, "G.V.", "G.VT.", 1)] = true
+							}
+						}
+					}
+				}
+			case *ssa.Range:
+				if comp, _, _, ok := t.rangeVisited(x); ok {
+					li.mods[comp] = true
+					li.mods[strings.Replace(comp, "G.V.", "G.VT.", 1)] = true
+				}
+			case *ssa.Next:
+				if rg, ok := x.Iter.(*ssa.Range); ok {
+					if comp, _, _, ok := t.rangeVisited(rg); ok {
+						li.mods[comp] = true
+					}
+				}
 			case *ssa.Call:
 				t.callMods(x.Common(), li)
 			case *ssa.Defer:
@@ -1237,6 +1328,9 @@ func (t *FnTrans) Translate() {
 	for _, g := range gnames {
 		t.heapGet(entry, "G."+g, arraySort("Int", t.mode.scalarSort(t.W.ghostType(g))))
 	}
+	// (the allocation frontier G.ALLOCF is created on first use: functions that
+	// neither allocate nor speak about allocation keep their queries free of
+	// integer/array terms, which matters for pure bit-vector problems)
 	for _, p := range fn.Params {
 		v := t.havocParam(p)
 		t.vals[p] = v
